@@ -624,6 +624,14 @@ class Interp:
         if isinstance(k, K.Tuple):
             return z3.Or(*[self.eq(item, e) for e in K.tuple_items(coll)]) if k.items \
                 else z3.BoolVal(False)
+        if isinstance(k, (K.Set, K.Map)) and isinstance(item, V):
+            want = k.elem if isinstance(k, K.Set) else k.key
+            try:
+                K.coerce(item, want)
+            except Unsupported:
+                if item.kind.leaf_sorts() != want.leaf_sorts():
+                    return z3.BoolVal(False)      # a value of another type is never a member
+                raise
         if isinstance(k, K.Set):
             return K.set_has(coll, item)
         if isinstance(k, K.Map):
@@ -967,6 +975,24 @@ class Interp:
                     raise Unsupported('symbolic tuple slice')
                 return i.as_long()
             return K.vtuple(items[cidx(sl.lower, None):cidx(sl.upper, None)])
+        if isinstance(base.kind, K.Seq) and sl.step is None:
+            n = K.seq_len(base)
+
+            def norm(e, dflt):
+                if e is None:
+                    return dflt
+                i = self.as_int(self.eval(e))
+                i = z3.If(i < 0, n + i, i)
+                return z3.If(i < 0, 0, z3.If(i > n, n, i))
+            lo, hi = norm(sl.lower, z3.IntVal(0)), norm(sl.upper, n)
+            out = self.p.fresh_value(base.kind, 'slice')
+            m = K.seq_len(out)
+            i = self.p.fresh('sl!i', z3.IntSort())
+            self.p.assume(m == z3.If(hi > lo, hi - lo, 0))
+            self.p.assume(K.forall([i], z3.Implies(z3.And(0 <= i, i < m), z3.And(
+                *[z3.Select(o, i) == z3.Select(a, lo + i) for o, a in zip(out.terms[1:], base.terms[1:])])),
+                patterns=[z3.Select(out.terms[1], i)]))
+            return out
         raise Unsupported('slice on %r (line %s)' % (base.kind, node.lineno))
 
     def e_Lambda(self, node):
